@@ -552,6 +552,12 @@ func regenCases(run *ev.Run, scratch string, rng *rand.Rand, n int) {
 		}
 	}
 	sort.Strings(genDirs)
+	var genFiles []string
+	for f := range refHash {
+		genFiles = append(genFiles, f)
+	}
+	sort.Strings(genFiles)
+	decoySuffixes := []string{".tmp", ".bak", "~", ".orig", ".swp", ".new", ".old", ".lock", ".part", ".tmp~"}
 	for i := 0; i < n; i++ {
 		run.Eval(1)
 		dir := filepath.Join(base, fmt.Sprintf("t%d", i))
@@ -591,6 +597,21 @@ func regenCases(run *ev.Run, scratch string, rng *rand.Rand, n int) {
 				place(filepath.Join(d, "Stale"+fmt.Sprint(i)+g.suffix), "// stale generated", 0o444, false)
 			}
 		}
+		// user files named like scratch / backup siblings of the files this very run writes (seed C20m: a writer that
+		// stages its output in "<file>.tmp" removes and renames away a user file of that name).  Chosen by position, so
+		// that no PRNG draw moves.
+		for j, f := range genFiles {
+			if (i+j)%2 == 0 {
+				mode := os.FileMode(0o644)
+				if (i+j)%4 == 0 {
+					mode = 0o444
+				}
+				place(f+decoySuffixes[(i+j/2)%len(decoySuffixes)], "user file beside "+filepath.Base(f), mode, true)
+			}
+			if (i+j)%5 == 0 {
+				place(filepath.Join(filepath.Dir(f), "."+filepath.Base(f)+decoySuffixes[(i+j)%len(decoySuffixes)]), "hidden user file", 0o600, true)
+			}
+		}
 		place("userdir/keep.txt", "keep", 0o644, true)
 		place("olddir/sub/Old"+g.suffix, "// stale", 0o444, false)
 		place("doc.go", "package main // user", 0o644, true)
@@ -624,6 +645,7 @@ func regenCases(run *ev.Run, scratch string, rng *rand.Rand, n int) {
 			run.Violation("v2/regen/generated-files-differ-from-fresh-generation", desc)
 		}
 		run.Count("regen_cases", 1)
+		run.Count("regen_user_files_watched", len(user))
 		run.Distinct(fmt.Sprintf("regen|%d|%d|%d", i, len(user), len(stale)))
 	}
 }
